@@ -11,7 +11,7 @@
      is_v2 ver                         the balance-version string selects the incremental algorithm
      even_topology nodes k             every data centre that occurs has exactly k nodes
      dcs_of nodes / node_dc nodes x    the sorted data-centre names / the data centre of node x  *)
-From ZV Require Import Common.Bytes Part.Model Place.Consts Place.Model Place.Proofs Place.ProofsV2 Place.SweepDefs Place.ProofsV2Fresh Place.ProofsOrder Place.ProofsConsumers Place.ProofsKeep.
+From ZV Require Import Common.Bytes Part.Model Place.Consts Place.Model Place.Proofs Place.ProofsV2 Place.SweepDefs Place.ProofsV2Fresh Place.ProofsOrder Place.ProofsConsumers Place.ProofsKeep Place.ProofsProbe Place.ProofsFreshGen.
 From Coq Require Import Permutation.
 Open Scope nat_scope.
 
@@ -119,36 +119,38 @@ Proof. exact rebalance_v1_leader_balance. Qed.
 Print Assumptions C17_v1_leader_balance.
 
 (* (6) incremental algorithm (the placement driver's default), fresh layout, nodes evenly spread over at
-   least r data centres: no two replicas of a partition share a data centre — for the whole range the
-   property quantifies over (<= 40 nodes, <= 4 data centres, <= 64 partitions; r <= #DCs). Proof: the run on
-   an arbitrary ring is the relabelling of the run on the canonical ring (ids are only compared for
-   equality), and the canonical runs are swept exhaustively by vm_compute (Place/Sweep*.v: every rotation; the
-   partitions are placed one after the other and the DC test and the "balanced" test of moveIfUnbalanced
-   are evaluated after each, which covers every p <= 64 and shows that no move happens on fresh layouts). *)
+   least r data centres: no two replicas of a partition share a data centre — for ALL sizes.
+   V2 never looks at data centres; the spread is a consequence of its (load, nameIndex) tie-breaks: partition t
+   receives the window of r cyclically consecutive nameIndex positions starting at (t*r) mod n, led by the first
+   position of the window that has not led in the current round of n partitions (linear probing with starts
+   advancing by r; with g = gcd r n the leader sits at distance (t mod n)/(n/g) < g <= r from the window start:
+   Place/ProofsProbe.v), and the load maps stay balanced, so moveIfUnbalanced moves nothing. *)
 Theorem C17_v2_fresh_dc_spread : forall ver ns p r nodes k l,
   is_v2 ver = true -> NoDup (map fst nodes) -> ~ In [] (map fst nodes) -> nodes <> [] ->
   even_topology nodes k -> N.to_nat r <= length (dcs_of nodes) ->
-  length (dcs_of nodes) <= 4 -> length nodes <= 40 -> (p <= 64)%N ->
   rebalance ver ns p r [] nodes = Ok l ->
   Forall (fun nl => NoDup (map (node_dc nodes) nl)) l.
-Proof. exact rebalance_v2_fresh_dc_spread. Qed.
+Proof. exact rebalance_v2_fresh_dc_spread_unbounded. Qed.
 Print Assumptions C17_v2_fresh_dc_spread.
 
-(* (6') the canonical fact behind (6), with its bound: d data centres of k nodes, rotation hm, p partitions *)
+(* (6') the closed form behind (6), on any duplicate-free ring of n = g*m nodes with r = g*r' replicas,
+   gcd m r' = 1: the fresh layout is [fresh_parts] (partition t = names of the window positions, leader
+   first), for every rotation h and every partition count p *)
+Theorem C17_v2_fresh_closed_form : forall g m r', 0 < g -> 0 < m -> 0 < r' -> Nat.gcd m r' = 1 -> g * r' <= g * m ->
+  forall (ring : list (list N)), NoDup ring -> ~ In [] ring -> length ring = g * m ->
+  forall h p, fill_v2 h p (g * r') [] ring = Ok (fresh_parts g m r' ring h 0 p).
+Proof. exact fill_v2_fresh_general. Qed.
+Print Assumptions C17_v2_fresh_closed_form.
+
+(* (6'') cross-check by computation, independent of the argument of (6): on canonical rings (node i called [i],
+   data centre i mod d) every fresh layout with 2 <= r <= d <= 4, d*k <= 40 nodes, every rotation, 1..64
+   partitions is balanced after the fill phase and spreads every list over r data centres
+   (vm_compute sweeps in Place/Sweep*.v, lifted with forallb_forall; bound in the statement) *)
 Theorem C17_v2_fresh_canonical_sweep : forall d k r hm p,
   2 <= r <= d -> d <= 4 -> 1 <= k -> d * k <= 40 -> hm < d * k -> 1 <= p <= 64 ->
   check_one d k r hm p = true.
 Proof. exact check_in_range. Qed.
 Print Assumptions C17_v2_fresh_canonical_sweep.
-
-(* the same claim without the size bounds is NOT proved here (no counter-example is known: a simulation of
-   the algorithm up to 45 nodes, 100 partitions, r <= 12 finds every fresh list to be a window of r
-   cyclically consecutive ring positions); it is outside the range the property quantifies over *)
-Definition C17_v2_fresh_dc_spread_unbounded : Prop := forall ver ns p r nodes k l,
-  is_v2 ver = true -> NoDup (map fst nodes) -> ~ In [] (map fst nodes) -> nodes <> [] ->
-  even_topology nodes k -> N.to_nat r <= length (dcs_of nodes) ->
-  rebalance ver ns p r [] nodes = Ok l ->
-  Forall (fun nl => NoDup (map (node_dc nodes) nl)) l.
 
 (* (7) what V2 keeps of the previous layout (data stability) — exactly what the code guarantees:
    fill phase: an old member (within the first r of its list) that is still alive stays in its slot; a slot
